@@ -367,7 +367,7 @@ func checkReaderLatch(p *Program, r *Result, fn *ssa.Function) {
 				continue
 			}
 			if c, isCall := v.(*ssa.Call); isCall {
-				if m := c.Call.StaticCallee(); m != nil && m.Signature.Recv() != nil && len(c.Call.Args) > 0 && c.Call.Args[0] == ssa.Value(fn.Params[0]) && latching(m) {
+				if m := c.Call.StaticCallee(); m != nil && m.Signature.Recv() != nil && len(c.Call.Args) > 0 && (c.Call.Args[0] == ssa.Value(fn.Params[0]) || tb.Term(c.Call.Args[0]).String() == "Recv") && latching(m) {
 					continue
 				}
 			}
